@@ -206,7 +206,7 @@ class State:
             return ("key", key, _choice(r, [-1, -1, -2, 0, 1]))
         if u < 0.7:
             return ("bitmask", key, _choice(r, [-1, -2, 0]), _ri(r, 0, 8), bool(r.integers(2)),
-                    _choice(r, [None, 1, 3, 6, 255]))
+                    _choice(r, [None, 0, 0, 1, 3, 6, 255, 1 << 40]))
         return ("sympy", _ri(r, 0, 8), (key, _choice(r, self.keys)), _ri(r, 0, 4))
 
 
